@@ -7,6 +7,9 @@ pub type InternalNodeId = u32;
 pub type LabelId = u32;
 
 const I2E_RECORD_SIZE: usize = 16;
+
+/// `I2eRecord::flags` bit: the node was deleted and its tombstone has been compacted away.
+pub const I2E_FLAG_TOMBSTONED: u32 = 1;
 const I2E_RECORDS_PER_PAGE: usize = PAGE_SIZE / I2E_RECORD_SIZE;
 
 #[derive(Debug, Clone, Copy, PartialEq, Eq)]
@@ -188,6 +191,23 @@ impl IdMap {
     }
 
     /// Add a label to an existing node.
+    /// Persists a node tombstone in the node table (used when compaction drops the runs
+    /// that carried the tombstone).
+    pub fn apply_tombstone(&mut self, pager: &mut Pager, internal_id: InternalNodeId) -> Result<()> {
+        let Some(start) = self.i2e_start else {
+            return Err(Error::WalProtocol("node not found"));
+        };
+        let record = self
+            .i2e
+            .get_mut(internal_id as usize)
+            .ok_or(Error::WalProtocol("node not found"))?;
+        if record.flags & I2E_FLAG_TOMBSTONED != 0 {
+            return Ok(());
+        }
+        record.flags |= I2E_FLAG_TOMBSTONED;
+        write_i2e_record(pager, start, internal_id as u64, *record)
+    }
+
     pub fn apply_add_label(
         &mut self,
         _pager: &mut Pager,
